@@ -37,6 +37,18 @@ func (r *vCountingReader) ReadRune() (rune, int, error) {
 	return ru, size, nil
 }
 
+// vDribbleReader is a legal but unhelpful reader: it hands out at most one octet per Read call.
+type vDribbleReader struct {
+	vCountingReader
+}
+
+func (r *vDribbleReader) Read(p []byte) (int, error) {
+	if len(p) > 1 {
+		p = p[:1]
+	}
+	return r.vCountingReader.Read(p)
+}
+
 type vBufWriter struct{ b []byte }
 
 func (w *vBufWriter) Write(p []byte) (int, error) {
@@ -75,8 +87,22 @@ func zStreamValue(kind int, tag string, shared *ZInner) interface{} {
 		return []interface{}{"x", zSmall(tag)}
 	case 8:
 		return map[string]int32{"k": zSmall(tag)}
-	default:
+	case 9:
 		return []byte{1, 2, 3}
+	case 10: // a string of two chunks (2048 + 2 characters), one of them arbitrary
+		rs := make([]rune, 2050)
+		for i := range rs {
+			rs[i] = rune('a' + i%26)
+		}
+		rs[2049] = rune('a' + zSmall(tag)%26)
+		return string(rs)
+	default: // a binary of two chunks (4096 + 1 octets)
+		b := make([]byte, 4097)
+		for i := range b {
+			b[i] = byte(i)
+		}
+		b[4096] = byte(zSmall(tag))
+		return b
 	}
 }
 
@@ -85,7 +111,7 @@ func zStreamEq(kind int, a, b interface{}) bool {
 	case 0:
 		x, ok := b.(int32)
 		return ok && x == a.(int32)
-	case 1:
+	case 1, 10:
 		x, ok := b.(string)
 		return ok && x == a.(string)
 	case 2, 4:
@@ -130,7 +156,7 @@ func H_C06_stream() {
 	kinds := make([]int, n)
 	vals := make([]interface{}, n)
 	for i := range vals {
-		kinds[i] = vChoice("kind", 10)
+		kinds[i] = vChoice("kind", 12)
 		vals[i] = zStreamValue(kinds[i], "v", shared)
 	}
 	viaSerializer := vChoice("api", 2) == 1
@@ -160,13 +186,18 @@ func H_C06_stream() {
 		ends[i] = p.pos
 	}
 	vAssert("stream-wellformed", p.err == "" && p.pos == len(w.b))
-	r := &vCountingReader{b: w.b}
+	cr := &vDribbleReader{vCountingReader{b: w.b}}
+	r := &cr.vCountingReader
+	var rd ByteRuneReader = r
+	if vChoice("reader", 2) == 1 {
+		rd = cr // one octet per Read call: a reader may always return fewer octets than asked for
+	}
 	var d *Decoder
 	var s Serializer
 	if viaSerializer {
 		s = NewSerializer(tm, nm)
 	} else {
-		d = NewDecoder(r, tm)
+		d = NewDecoder(rd, tm)
 	}
 	for i := 0; i < n; i++ {
 		var got interface{}
@@ -175,7 +206,7 @@ func H_C06_stream() {
 		case !viaSerializer:
 			got, err = d.ReadObject()
 		case i == 0:
-			got, err = s.ReadFrom(r)
+			got, err = s.ReadFrom(rd)
 		default:
 			got, err = s.Read()
 		}
